@@ -74,6 +74,7 @@ partial def loop (h : IO.FS.Stream) (s : St) : IO Unit := do
   | ["sub", r, req, p, v] => IO.println "ok"; loop h (upd (subscribe FUEL w r.toNat! (opts req) (opt1 p) (val v).get!))
   | ["unsub", r, req, p, v] => IO.println "ok"; loop h (upd (unsubscribe FUEL w r.toNat! (opts req) (opt1 p) (val v)))
   | ["rebuild", r] => IO.println "ok"; loop h (upd (rebuild FUEL w r.toNat!))
+  | ["relookup", r] => IO.println "ok"; loop h (upd (relookup w r.toNat!))
   | ["lookup", r, req, p, name] =>
       let ts := twinState w r.toNat!
       let tc := (ZI.LookupTwin.lookupC ts (nums req) p.toNat! (twinName name) false).2
